@@ -1,5 +1,6 @@
 import Flurry.Proto.BinT
 import Flurry.Lemmas.LinSearch
+import Flurry.Lemmas.BinTLin
 /-! # C01 (tree-bin level): the ORIGINAL removal order of `Proto/BinT` (`stepOld`) is **not** linearizable — a machine-checked counterexample (finding F8)
 
 The intended theorem
@@ -127,5 +128,148 @@ theorem not_bint_linearizable_quiescent :
   intro hall
   obtain ⟨s, hr, hq, hn⟩ := bint_not_linearizable
   exact hn (hall 3 s hr hq 1)
+
+/-! # The repaired order: one tree bin is linearizable under every interleaving
+
+`Reachable` is reachability under `step = stepG true`: a removal takes the tree's write lock
+*before* it unlinks the node from the list (`wUnlinkLocked`). For every reachable state and every
+key, the history of that key — the completed calls, plus the calls of writers that are past their
+linearization point (`callsOnExt`) — is linearizable from "absent" to the **ghost** abstract state
+`gAbs` (the node with that key that is both on the list and in the tree); `gAbs = absOf` whenever no
+thread holds the write lock, in particular in quiescent states.
+
+Linearization points: a value store (`insert` on a present key, `compute_if_present`) at `wVal`; an
+insert of a new key at `wTreeLink` (the prepended node counts once it is in the tree: a list-walking
+reader can only stand on it after that, because the lock bits are clear until then); a removal at
+`wUnlinkLocked` (the list unlink under the write lock: no tree-mode reader exists, and list-walking
+readers — also those whose "linear" decision is stale — see the list); writers that change nothing at
+`wFind`; readers in hindsight (`Good`, `ValWit` in `Lemmas/BinTGhost.lean`). The structural
+invariant is `Inv` (`Lemmas/BinTInv.lean`, `reachable_inv`). -/
+
+theorem init_ginv (n k : Nat) : GInv k (init n) (fun _ => none) id := by
+  have hthr : ∀ (t : Nat) (l : Local), (init n).threads[t]? = some l → l = {} := fun t l h => init_threads h
+  have hnil : callsOnExt (init n) k = [] := by
+    rw [List.eq_nil_iff_forall_not_mem]
+    intro c hc
+    rcases mem_callsOnExt.1 hc with hc | ⟨t, l, hl, he⟩
+    · simp [init] at hc
+    · rw [hthr t l hl] at he
+      cases he
+  refine ⟨rfl, ?_, ?_, ?_, ?_, ?_⟩
+  · symm
+    rw [gAbs_eq_none_iff]
+    intro i hi
+    simp [chain, init, chainFrom] at hi
+  · intro c hc; rw [hnil] at hc; cases hc
+  · intro τ h1 h2
+    have : (init n).now = 0 := rfl
+    omega
+  · intro c hc; rw [hnil] at hc; cases hc
+  · intro t l p hl hc
+    rw [hthr t l hl] at hc
+    cases hc
+
+/-- the ghost invariant holds in every reachable state -/
+theorem reachable_ginv {n : Nat} {s : State} (hr : Reachable n s) (k : Nat) :
+    ∃ A pt, GInv k s A pt := by
+  induction hr with
+  | init => exact ⟨_, _, init_ginv n k⟩
+  | @step s s' t inv bal hr hs ih =>
+    obtain ⟨A, pt, g⟩ := ih
+    cases hl : s.threads[t]? with
+    | none => unfold step stepG at hs; rw [hl] at hs; cases hs
+    | some l => exact ginv_step g (reachable_inv hr) hl (step_stepK hl hs)
+
+/-- from the ghost invariant to linearizability (the trace lemma) -/
+theorem GInv.linearizable {k : Nat} {s : State} {A : Nat → KSt} {pt : Nat → Nat}
+    (g : GInv k s A pt) (I : Inv s) : Linearizable (callsOnExt s k) none (gAbs s k) := by
+  have h := lin_of_trace (h := callsOnExt s k) A s.now (fun c => pt c.inv) ?_ ?_ ?_ ?_ ?_
+  · rw [g.h0, g.hA] at h; exact h
+  · intro c hc
+    obtain ⟨h1, h2, -, -⟩ := g.calls c hc
+    have := callsOnExt_resp_le I.thr hc
+    exact ⟨h1, h2, by omega⟩
+  · intro c hc hw; exact (g.calls c hc).2.2.2 hw
+  · intro c hc hrd; exact (g.calls c hc).2.2.1 hrd
+  · refine (callsOnExt_pairwise I.thr k).imp_of_mem ?_
+    intro c d hc hd hne hwc hwd hpe
+    exact hne (g.inj c hc d hd hwc hwd hpe)
+  · intro τ h1 h2 hno
+    apply Classical.byContradiction
+    intro hne
+    obtain ⟨c, hc, hw, hp⟩ := g.stab τ h1 h2 hne
+    exact hno c hc hw hp
+
+/-- the writer calls of the extended history -/
+def writerCallsOn (s : State) (k : Nat) : History := (callsOnExt s k).filter (fun c => !isRead c.op)
+
+theorem GInv.linearizable_writers {k : Nat} {s : State} {A : Nat → KSt} {pt : Nat → Nat}
+    (g : GInv k s A pt) (I : Inv s) : Linearizable (writerCallsOn s k) none (gAbs s k) := by
+  have hmem : ∀ c, c ∈ writerCallsOn s k ↔ c ∈ callsOnExt s k ∧ isRead c.op = false := by
+    intro c; simp [writerCallsOn, List.mem_filter]
+  have h := lin_of_trace (h := writerCallsOn s k) A s.now (fun c => pt c.inv) ?_ ?_ ?_ ?_ ?_
+  · rw [g.h0, g.hA] at h; exact h
+  · intro c hc
+    have hc := ((hmem c).1 hc).1
+    obtain ⟨h1, h2, -, -⟩ := g.calls c hc
+    have := callsOnExt_resp_le I.thr hc
+    exact ⟨h1, h2, by omega⟩
+  · intro c hc hw; exact (g.calls c ((hmem c).1 hc).1).2.2.2 hw
+  · intro c hc hrd; exact (g.calls c ((hmem c).1 hc).1).2.2.1 hrd
+  · refine ((callsOnExt_pairwise I.thr k).filter _).imp_of_mem ?_
+    intro c d hc hd hne hwc hwd hpe
+    exact hne (g.inj c ((hmem c).1 hc).1 d ((hmem d).1 hd).1 hwc hwd hpe)
+  · intro τ h1 h2 hno
+    apply Classical.byContradiction
+    intro hne
+    obtain ⟨c, hc, hw, hp⟩ := g.stab τ h1 h2 hne
+    exact hno c ((hmem c).2 ⟨hc, hw⟩) hw hp
+
+/-- **Structural invariant** of the repaired tree-bin model (heap, threads and times, locks, and the
+relation between list and tree): `Inv` holds in every reachable state. -/
+theorem bint_inv {n : Nat} {s : State} (hr : Reachable n s) : Inv s := reachable_inv hr
+
+/-- in a state in which no thread holds the tree's write lock the ghost state is the abstract state -/
+theorem gAbs_eq_absOf_of_reachable {n : Nat} {s : State} (hr : Reachable n s) (hw : s.writer = false) (k : Nat) :
+    gAbs s k = absOf s k :=
+  (reachable_inv hr).gAbs_eq_absOf_of_no_writer hw k
+
+theorem writer_false_of_quiescent {n : Nat} {s : State} (hr : Reachable n s) (hq : quiescent s) :
+    s.writer = false := by
+  have I := reachable_inv hr
+  cases hw : s.writer with
+  | false => rfl
+  | true =>
+    have hb : (s.writer || s.waiter) = true := by rw [hw]; rfl
+    obtain ⟨h, l, hl, _, hpc⟩ := I.lock.bits_holder hb
+    rw [hq l (List.mem_of_getElem? hl)] at hpc
+    rcases hpc with h | h <;> cases h
+
+/-- **writers-only linearizability** (ghost state; = `absOf` when `writer` is clear) -/
+theorem bint_linearizable_writers {n : Nat} {s : State} (hr : Reachable n s) (k : Nat) :
+    Lin.Linearizable (writerCallsOn s k) none (gAbs s k) := by
+  obtain ⟨A, pt, g⟩ := reachable_ginv hr k
+  exact g.linearizable_writers (reachable_inv hr)
+
+/-- **C01, tree-bin level (repaired order).** Under every interleaving of any number of threads, the
+per-key history of a tree bin (completed calls plus writers past their linearization point) is
+linearizable and ends in the ghost abstract state. -/
+theorem bint_linearizable {n : Nat} {s : State} (hr : Reachable n s) (k : Nat) :
+    Lin.Linearizable (callsOnExt s k) none (gAbs s k) := by
+  obtain ⟨A, pt, g⟩ := reachable_ginv hr k
+  exact g.linearizable (reachable_inv hr)
+
+/-- … and in the abstract state (tree membership) whenever no thread holds the tree's write lock -/
+theorem bint_linearizable_unlocked {n : Nat} {s : State} (hr : Reachable n s) (hw : s.writer = false) (k : Nat) :
+    Lin.Linearizable (callsOnExt s k) none (absOf s k) := by
+  rw [← gAbs_eq_absOf_of_reachable hr hw k]
+  exact bint_linearizable hr k
+
+/-- **C01, tree-bin level, quiescent form.** -/
+theorem bint_linearizable_quiescent {n : Nat} {s : State} (hr : Reachable n s) (hq : quiescent s) (k : Nat) :
+    Lin.Linearizable (callsOn s k) none (absOf s k) := by
+  have := bint_linearizable_unlocked hr (writer_false_of_quiescent hr hq) k
+  rw [callsOnExt_quiescent hq] at this
+  exact this
 
 end Flurry.Proto.BinT
